@@ -91,6 +91,7 @@ Section Main.
   Proof. intros (Hc & Hch & _). rewrite Hch. eapply guard_clean. exact Hc. Qed.
 
   Section Tokens.
+  Context {fx : FxEscape}.
   Variable gbk : list N -> Z.
 
   Lemma tokA_moves s t s' : TokA s t s' -> exists n, Moves s s' n n /\ (1 <= n)%nat.
